@@ -29,6 +29,13 @@ LevelsNested == \A large \in BOOLEAN :
    /\ Level(A, B, FALSE) = "AA" => Level(A, B, TRUE) \in {"AAA", "CLOSE"}
 \* monotone in the lighter colour (greys only)
 Monotone == ch = 0 /\ g1 < 255 /\ g2 >= 0 /\ g1 >= g2 => Ratio6(Col(g1 + 1, 0), B) > Ratio6(A, B)
+\* the six-more-decimals comparison never contradicts the 1e-8 comparison where that one is conclusive with twice its band
+FineConsistent == \A rq \in {<<3,1>>, <<9,2>>, <<7,1>>} :
+   LET l == rq[2] * (LHi(A, B) + Flare)
+       r == rq[1] * (LLo(A, B) + Flare)
+       band == LumErr * (rq[1] + rq[2])
+   IN /\ (l - r >= band /\ l - r <= 200) => CmpRatioFine(A, B, rq[1], rq[2]) = "GE"
+      /\ (r - l > band /\ r - l <= 200) => CmpRatioFine(A, B, rq[1], rq[2]) = "LT"
 ASSUME RequiredTable ==
    /\ Required(FALSE, FALSE) = <<9,2>> /\ Required(TRUE, FALSE) = <<3,1>>
    /\ Required(FALSE, TRUE) = <<7,1>> /\ Required(TRUE, TRUE) = <<9,2>>
